@@ -44,7 +44,7 @@ DESTS = ['absent', 'file', 'symlink', 'dangling', 'directory']
 WRITE_EXT = {'ds9': ['.reg', '.ds9'], 'crtf': ['.crtf'], 'fits': ['.fits', '.fit', '.fts']}
 READ_EXT = {'ds9': ['.ds9', '.reg', '.ds9.gz', '.reg.gz'], 'crtf': ['.crtf', '.crtf.gz'],
             'fits': ['.fits', '.fit', '.fts', '.fits.gz', '.fit.gz', '.fts.gz']}
-DIFFICULT = ['none', 'compound', 'sky_or_pixel_intruder', 'odd_frame', 'partial_components', 'rectangleannulus', 'text']
+DIFFICULT = ['none', 'compound', 'sky_or_pixel_intruder', 'odd_frame', 'partial_components', 'rectangleannulus', 'text', 'nonascii_text']
 OLD = b'PRECIOUS USER DATA\n' * 7
 
 
@@ -87,6 +87,10 @@ def _difficult(fmt, kind):
         if sky:
             return R.RectangleAnnulusSkyRegion(SkyCoord(150 * u.deg, 20 * u.deg, frame='fk5'), 1 * u.arcsec, 2 * u.arcsec, 1 * u.arcsec, 2 * u.arcsec)
         return R.RectangleAnnulusPixelRegion(PixCoord(5.0, 5.0), 2.0, 4.0, 1.0, 3.0)
+    if kind == 'nonascii_text':      # a label that not every text encoding can hold
+        if sky:
+            return R.TextSkyRegion(SkyCoord(150 * u.deg, 20 * u.deg, frame='fk5'), '\u03b1 Cen \u2013 n\u00b0 5', meta={'label': '\u03b1'})
+        return R.TextPixelRegion(PixCoord(5.0, 5.0), '\u03b1 Cen \u2013 n\u00b0 5')
     if kind == 'text':
         if sky:
             return R.TextSkyRegion(SkyCoord(150 * u.deg, 20 * u.deg, frame='fk5'), 'words')
